@@ -18,13 +18,13 @@ mv "$WT"/seed* "$TMPMOVE"/
 restore() { mv "$TMPMOVE"/seed* "$WT"/ 2>/dev/null; rmdir "$TMPMOVE" 2>/dev/null; }
 cp "$TMPMOVE/$SD/$(basename $DEMO)" "$WT/$PKGDIR/zz_seeddemo_test.go"
 # clean tree: demo passes
-go test -vet=off -count=1 -timeout 180s $TAGS -run 'Seed' ./$PKGDIR/ > /tmp/confirm_$ID.clean.log 2>&1; CLEAN=$?
+go test -vet=off -count=1 -timeout 180s $TAGS -run 'Seed|Demo' ./$PKGDIR/ > /tmp/confirm_$ID.clean.log 2>&1; CLEAN=$?
 rm -f "$WT/$PKGDIR/zz_seeddemo_test.go"
 git apply "$TMPMOVE/$SD/patch.diff" || { echo "RESULT $ID patch does not apply"; restore; exit 1; }
 go build ./... > /tmp/confirm_$ID.build.log 2>&1; BUILD=$?
 go test -vet=off -count=1 -timeout 25m ./... > /tmp/confirm_$ID.suite.log 2>&1; SUITE=$?
 cp "$TMPMOVE/$SD/$(basename $DEMO)" "$WT/$PKGDIR/zz_seeddemo_test.go"
-go test -vet=off -count=1 -timeout 180s $TAGS -run 'Seed' ./$PKGDIR/ > /tmp/confirm_$ID.mut.log 2>&1; MUT=$?
+go test -vet=off -count=1 -timeout 180s $TAGS -run 'Seed|Demo' ./$PKGDIR/ > /tmp/confirm_$ID.mut.log 2>&1; MUT=$?
 rm -f "$WT/$PKGDIR/zz_seeddemo_test.go"
 git checkout -q -- .
 restore
